@@ -52,8 +52,16 @@ type scionLive struct {
 	srcPort uint16 // of the last request (for replies)
 }
 
-func (l *scionLive) configure(il bool, f *recFilter) {
-	l.c.InterleavedMode = il
+func (l *scionLive) configure(cfg exchCfg, f *recFilter) {
+	l.c.InterleavedMode = cfg.il
+	l.c.Auth.NTSEnabled = cfg.nts
+	if cfg.nts {
+		l.c.Auth.NTSKEFetcher.VerifC11SetData(ntsData())
+	}
+	l.c.Auth.Enabled = cfg.spao
+	if cfg.spao && l.c.Auth.DRKeyFetcher == nil {
+		l.c.Auth.DRKeyFetcher = scion.NewFetcher(nil) // no daemon: the key fetch fails, no key becomes available
+	}
 	l.c.Filter = nil
 	if f != nil {
 		l.c.Filter = f
@@ -432,7 +440,7 @@ func scionExchanges(c *lib.Ctx, tag string, n int, mutantShare int) {
 
 func genC03SCION(c *lib.Ctx) {
 	scionExchanges(c, "c03scion", c.Scale(200, 4000), 12)
-	c.NotExecuted("SCION client with DRKey packet authentication or NTS on the live socket (needs a daemon connector / key exchange; modelled with the MAC and AEAD verdicts as inputs)")
+	c.NotExecuted("SCION client with a DRKey key available on the live socket (needs a daemon connector; modelled with the MAC verdict as input)")
 }
 
 func genC05SCION(c *lib.Ctx) {
@@ -461,6 +469,6 @@ func genC05SCION(c *lib.Ctx) {
 		}
 		c.Count("f13:scion")
 	}
-	c.NotExecuted("SCION client with DRKey packet authentication or NTS on the live socket (needs a daemon connector / key exchange; modelled with the MAC and AEAD verdicts as inputs)")
+	c.NotExecuted("SCION client with a DRKey key available on the live socket (needs a daemon connector; modelled with the MAC verdict as input)")
 	_ = strings.Join
 }
